@@ -26,6 +26,7 @@ theorem generic_dict : ptm.generic .dict = false := rfl
 theorem generic_tdict : ptm.generic .tDict = true := rfl
 theorem origin_tdict : ptm.origin .tDict = some .dict := rfl
 theorem cbt_tunion : ptm.cbt .tUnion = some .anyOf := rfl
+theorem cbt_tuple : ptm.cbt .tuple = some .tuple := rfl
 
 theorem default_scalar (k : Scalar) : defaultDecl k.head = .ok k.decl := by cases k <;> rfl
 theorem default_coll (c : Coll) (h : (c != Coll.tuple) = true) : defaultDecl c.head = .ok c.anyDecl := by
@@ -53,6 +54,32 @@ structure Good (s : Sp) (o : Obj) : Prop where
   nn : isNoneTy o = false
   /-- a call of a Field class evaluates to an instance -/
   ki : kwAllowed s = true → o = .finst (denote s)
+  /-- only the name of a Structure class evaluates to a Structure class -/
+  sc : isSclsObj o = isStructSp s
+  /-- only `Owner | …` evaluates to a Structure-first PEP 604 union -/
+  su : structFirstUnion o = structFirstPipe s
+
+theorem fieldExpr_not_sfp : ∀ s : Sp, isFieldExpr s = true → structFirstPipe s = false := by
+  intro s
+  induction s with
+  | pipe x y ihx _ =>
+    intro h
+    have hx : isFieldExpr x = true := by simpa [isFieldExpr] using h
+    have h1 : isStructSp x = false := by cases x <;> first | rfl | simp [isFieldExpr] at hx
+    simp [structFirstPipe, h1, ihx hx]
+  | _ => intros; rfl
+
+theorem fieldOrScls_not_sfu {o : Obj} (h : (isFieldObj o || isSclsObj o) = true) : structFirstUnion o = false := by
+  cases o <;> first | rfl | simp [isFieldObj, isSclsObj] at h
+
+theorem fieldExpr_not_struct {s : Sp} (h : isFieldExpr s = true) : isStructSp s = false := by
+  cases s <;> first | rfl | simp [isFieldExpr] at h
+
+theorem unionLike_not_struct {s : Sp} (h : unionLike s = true) : isStructSp s = false := by
+  cases s <;> first | rfl | simp [unionLike] at h
+
+theorem fieldObj_not_scls {o : Obj} (h : isFieldObj o = true) : isSclsObj o = false := by
+  cases o <;> first | rfl | simp [isFieldObj] at h
 
 theorem someDecl_ok {r : R FieldDecl} {m : FieldDecl} (h : someDecl r = .ok (some m)) : r = .ok m := by
   cases r with
@@ -60,22 +87,76 @@ theorem someDecl_ok {r : R FieldDecl} {m : FieldDecl} (h : someDecl r = .ok (som
   | ok d => simp [someDecl] at h; simp [h]
 
 /-- `FieldMeta.__getitem__` agrees with `get_typing_lib_info` whenever the latter yields a field -/
-theorem getItem_of_gtli {o : Obj} {m : FieldDecl} (h : gtli ptm o = .ok (some m)) : getItem ptm o = .ok m := by
+theorem getItem_of_gtli {o : Obj} {m : FieldDecl} (h : gtli ptm o = .ok (some m))
+    (hu : structFirstUnion o = false) : getItem ptm o = .ok m := by
   cases o with
   | finst d => simp [gtli] at h; simp [getItem, h]
   | fcls hd => simp only [gtli] at h; simp [getItem, someDecl_ok h]
   | noneV => simp [gtli] at h
-  | ty a => simp [getItem, getItemFallback, h]
-  | alias t og args => simp [getItem, getItemFallback, h]
-  | tUnion ms => simp [getItem, getItemFallback, h]
-  | uType ms => simp [getItem, getItemFallback, h]
-  | noneTy => simp [getItem, getItemFallback, h]
+  | ty a => simp [getItem, getItemFallback, h, structFirstUnion]
+  | alias t og args => simp [getItem, getItemFallback, h, structFirstUnion]
+  | tUnion ms => simp [getItem, getItemFallback, h, structFirstUnion]
+  | uType ms => simp [getItem, getItemFallback, h, hu]
+  | noneTy => simp [getItem, getItemFallback, h, structFirstUnion]
+  | scls d => simp [gtli] at h; simp [getItem, h]
+
+/-- the same, through the `Good` invariant: an expression that may be an argument of a typedpy field -/
+theorem getItem_good {s : Sp} {o : Obj} (g : Good s o) (h : itemOk s = true) : getItem ptm o = .ok (denote s) :=
+  getItem_of_gtli g.gt (by rw [g.su]; simpa [itemOk] using h)
+
+/-- ... a Field or a Structure class in particular -/
+theorem getItem_fieldObj {o : Obj} {m : FieldDecl} (h : gtli ptm o = .ok (some m))
+    (hf : (isFieldObj o || isSclsObj o) = true) : getItem ptm o = .ok m :=
+  getItem_of_gtli h (fieldOrScls_not_sfu hf)
 
 theorem mapToField_of_gtli {o : Obj} {m : FieldDecl} (h : gtli ptm o = .ok (some m)) (hf : isFieldObj o = true) :
     mapToField o = .ok (some m) := by
   cases o with
   | finst d => simp [gtli] at h; simp [mapToField, h]
   | fcls hd => simp only [gtli] at h; simpa [mapToField] using h
+  | _ => simp [isFieldObj] at hf
+
+/-- `items=` given a Field or a Structure class -/
+theorem mapToField_good {s : Sp} {o : Obj} (g : Good s o) (h : isFieldOrStruct s = true) :
+    mapToField o = .ok (some (denote s)) := by
+  have hg := g.gt
+  have hfo := g.fo
+  have hsc := g.sc
+  simp only [isFieldOrStruct, Bool.or_eq_true] at h
+  cases o with
+  | finst d => simp [gtli] at hg; simp [mapToField, hg]
+  | fcls hd => simp only [gtli] at hg; simpa [mapToField] using hg
+  | scls d => simp [gtli] at hg; simp [mapToField, hg]
+  | _ =>
+    have h1 : isFieldExpr s = false := by rw [← hfo]; rfl
+    have h2 : isStructSp s = false := by rw [← hsc]; rfl
+    simp [h1, h2] at h
+
+theorem callItem_good {s : Sp} {o : Obj} (c : Coll) (g : Good s o)
+    (h : (isFieldExpr s || (isStructSp s && c != Coll.tuple)) = true) :
+    callItem c o = .ok (some (denote s)) := by
+  have hm : mapToField o = .ok (some (denote s)) := by
+    apply mapToField_good g
+    simp only [isFieldOrStruct, Bool.or_eq_true, Bool.and_eq_true] at h ⊢
+    rcases h with h | h
+    · exact Or.inl h
+    · exact Or.inr h.1
+  simp only [callItem, hm]
+  by_cases hc : (c == Coll.tuple && isSclsObj o) = true
+  · exfalso
+    simp only [Bool.and_eq_true] at hc
+    have hs : isStructSp s = true := by rw [← g.sc]; exact hc.2
+    have hf : isFieldExpr s = false := by
+      cases s <;> first | rfl | simp [isStructSp] at hs
+    have hct : c = Coll.tuple := by simpa using hc.1
+    simp [hf, hs, hct] at h
+  · simp [hc]
+
+theorem tupleItem_of_gtli {o : Obj} {m : FieldDecl} (h : gtli ptm o = .ok (some m)) (hf : isFieldObj o = true) :
+    tupleItem o = .ok m := by
+  cases o with
+  | finst d => simp [gtli] at h; simp [tupleItem, h]
+  | fcls hd => simp only [gtli] at h; simpa [tupleItem] using someDecl_ok h
   | _ => simp [isFieldObj] at hf
 
 theorem typingArg_of_gtli {o : Obj} {m : FieldDecl} (h : gtli ptm o = .ok (some m)) : typingArg o = o := by
@@ -98,7 +179,8 @@ theorem gtliArgs_two {o₁ o₂ : Obj} {m₁ m₂ : FieldDecl} (b : Bool) (h₁ 
   simp [gtliArgs, h₁, h₂, argOf]
 
 theorem good_finst (s : Sp) (d : FieldDecl) (hd : denote s = d) (hf : isFieldExpr s = true) : Good s (.finst d) :=
-  ⟨by simp [gtli, hd], by simp [isFieldObj, hf], fun _ => rfl, rfl, fun _ => by rw [hd]⟩
+  ⟨by simp [gtli, hd], by simp [isFieldObj, hf], fun _ => rfl, rfl, fun _ => by rw [hd],
+    by rw [fieldExpr_not_struct hf]; rfl, by rw [fieldExpr_not_sfp s hf]; rfl⟩
 
 /-- typing does not merge an object that maps to a field with `NoneType` -/
 theorem objEq_noneTy {o : Obj} (h : isNoneTy o = false) : objEq o .noneTy = false := by
@@ -113,9 +195,10 @@ theorem gtli_tUnion_pair {a b : Obj} {ma mb : FieldDecl} (ha : gtli ptm a = .ok 
 
 theorem good_tUnion (s : Sp) {a b : Obj} {ma mb : FieldDecl} (ha : gtli ptm a = .ok (some ma))
     (hb : gtli ptm b = .ok (some mb)) (hd : denote s = .anyOf [ma, mb]) (hf : isFieldExpr s = false)
-    (hu : unionLike s = true) : Good s (.tUnion [a, b]) :=
+    (hu : unionLike s = true) (hp : structFirstPipe s = false) : Good s (.tUnion [a, b]) :=
   ⟨by rw [gtli_tUnion_pair ha hb, hd], by simp [isFieldObj, hf], fun h => by simp [hu] at h, rfl,
-    fun h => by cases s <;> simp [kwAllowed, unionLike] at h hu⟩
+    fun h => by cases s <;> simp [kwAllowed, unionLike] at h hu, by rw [unionLike_not_struct hu]; rfl,
+    by rw [hp]; rfl⟩
 
 
 theorem mkUType_pair {a b : Obj} (h : objEq a b = false) : mkUType [a, b] = .uType [a, b] := by
@@ -128,9 +211,16 @@ theorem gtli_uType_pair {a b : Obj} {ma mb : FieldDecl} (ha : gtli ptm a = .ok (
 /-- a PEP-604 union of two plain types is consumed like `typing.Union` of them -/
 theorem good_uType (s : Sp) {a b : Obj} {ma mb : FieldDecl} (ha : gtli ptm a = .ok (some ma))
     (hb : gtli ptm b = .ok (some mb)) (hd : denote s = .anyOf [ma, mb]) (hf : isFieldExpr s = false)
-    (hu : unionLike s = true) (hk : kwAllowed s = false) : Good s (.uType [a, b]) :=
+    (hu : unionLike s = true) (hk : kwAllowed s = false)
+    (hsu : structFirstUnion (.uType [a, b]) = structFirstPipe s) : Good s (.uType [a, b]) :=
   ⟨by rw [gtli_uType_pair ha hb, hd], by simp [isFieldObj, hf], fun h => by simp [hu] at h, rfl,
-    fun h => by simp [hk] at h⟩
+    fun h => by simp [hk] at h, by rw [unionLike_not_struct hu]; rfl, hsu⟩
+
+theorem plainSp_not_sfp {s : Sp} (h : plainSp s = true) : structFirstPipe s = false := by
+  cases s <;> first | rfl | simp [plainSp] at h
+
+theorem sfu_pair (a b : Obj) : structFirstUnion (.uType [a, b]) = isSclsObj a := by
+  cases a <;> rfl
 
 theorem plainSp_not_field {s : Sp} (h : plainSp s = true) : isFieldExpr s = false := by
   cases s <;> simp [plainSp] at h <;> rfl
@@ -149,6 +239,15 @@ theorem plainSp_plainType {s : Sp} {o : Obj} (h : plainSp s = true) (hev : ev pt
     | error e => simp [hx] at hev
     | ok ox => simp [hx] at hev; subst hev; rfl
   case dict585 k v =>
+    simp only [ev] at hev
+    cases hk : ev ptm k with
+    | error e => simp [hk] at hev
+    | ok ok' =>
+      cases hv : ev ptm v with
+      | error e => simp [hk, hv] at hev
+      | ok ov => simp [hk, hv] at hev; subst hev; rfl
+  case scls d n => simp [ev] at hev; subst hev; rfl
+  case tup585 k v =>
     simp only [ev] at hev
     cases hk : ev ptm k with
     | error e => simp [hk] at hev
@@ -186,6 +285,15 @@ theorem plainSp_not_typing {s : Sp} {o : Obj} (h : plainSp s = true) (hev : ev p
       cases hv : ev ptm v with
       | error e => simp [hk, hv] at hev
       | ok ov => simp [hk, hv] at hev; subst hev; rfl
+  case scls d n => simp [ev] at hev; subst hev; rfl
+  case tup585 k v =>
+    simp only [ev] at hev
+    cases hk : ev ptm k with
+    | error e => simp [hk] at hev
+    | ok ok' =>
+      cases hv : ev ptm v with
+      | error e => simp [hk, hv] at hev
+      | ok ov => simp [hk, hv] at hev; subst hev; rfl
 
 /-- a right operand of the plain kind is not a `typing` object, and is a plain type or a Field class -/
 theorem plainRightSp_kind {s : Sp} {o : Obj} (h : plainRightSp s = true) (hev : ev ptm s = .ok o) :
@@ -214,13 +322,13 @@ theorem member_ok {z : Sp} (ih : supported ptm z = true → ∃ o, ev ptm z = .o
 
 /-- an argument of `AnyOf[…]`: `None`, or a supported expression -/
 theorem item_ok {z : Sp} (ih : supported ptm z = true → ∃ o, ev ptm z = .ok o ∧ Good z o)
-    (h : isNoneLit z = true ∨ supported ptm z = true) :
+    (h : isNoneLit z = true ∨ (supported ptm z = true ∧ itemOk z = true)) :
     ∃ o, ev ptm z = .ok o ∧ getItem ptm o = .ok (denote z) := by
   rcases h with h | h
   · have := isNoneLit_eq h; subst this
     exact ⟨.noneV, rfl, rfl⟩
-  · obtain ⟨o, hev, g⟩ := ih h
-    exact ⟨o, hev, getItem_of_gtli g.gt⟩
+  · obtain ⟨o, hev, g⟩ := ih h.1
+    exact ⟨o, hev, getItem_good g h.2⟩
 
 /-- `_or_fields` with a non-field right operand that `get_typing_lib_info` converts -/
 theorem orFields_converted {l r : Obj} {dl dr : FieldDecl} (hl : getItem ptm l = .ok dl)
@@ -230,7 +338,11 @@ theorem orFields_converted {l r : Obj} {dl dr : FieldDecl} (hl : getItem ptm l =
   | noneV => simp [gtli] at hr
   | fcls h => simp [isFieldObj] at hf
   | finst d => simp [isFieldObj] at hf
-  | _ => simp [orFields, hl, isFieldObj, orConverted, hr]
+  | scls d =>
+    simp [gtli] at hr
+    rw [orFields, hl]
+    simp [isFieldObj, isSclsObj, getItem, hr]
+  | _ => simp [orFields, hl, isFieldObj, isSclsObj, orConverted, hr]
 
 
 theorem unionMembers_noneV : unionMembers .noneV = [.noneTy] := rfl
@@ -239,6 +351,7 @@ theorem typingObj_noneV : typingObj ptm .noneV = false := rfl
 theorem plainType_noneV : plainType ptm .noneV = false := rfl
 theorem plainRight_noneV : plainRight ptm .noneV = true := rfl
 theorem getItem_noneV : getItem ptm .noneV = .ok .noneF := rfl
+theorem isSclsObj_noneV : isSclsObj .noneV = false := rfl
 
 /-- Main lemma: a supported spelling evaluates, and the resulting object is consumed as its documented
     meaning in every position. -/
@@ -248,10 +361,10 @@ theorem ev_good : ∀ s : Sp, supported ptm s = true → ∃ o, ev ptm s = .ok o
   | builtin k =>
     intro _
     exact ⟨.ty k.atom, rfl,
-      ⟨by simp [gtli, generic_scalar, cbt_scalar, default_scalar, someDecl, denote], rfl, fun _ => rfl, rfl, fun h => by simp [kwAllowed] at h⟩⟩
+      ⟨by simp [gtli, generic_scalar, cbt_scalar, default_scalar, someDecl, denote], rfl, fun _ => rfl, rfl, fun h => by simp [kwAllowed] at h, rfl, rfl⟩⟩
   | fcls k =>
     intro _
-    exact ⟨.fcls k.head, rfl, ⟨by simp [gtli, default_scalar, someDecl, denote], rfl, fun _ => rfl, rfl, fun h => by simp [kwAllowed] at h⟩⟩
+    exact ⟨.fcls k.head, rfl, ⟨by simp [gtli, default_scalar, someDecl, denote], rfl, fun _ => rfl, rfl, fun h => by simp [kwAllowed] at h, rfl, rfl⟩⟩
   | finst k =>
     intro _
     exact ⟨.finst k.decl, by simp [ev, default_scalar], good_finst _ _ rfl rfl⟩
@@ -263,16 +376,16 @@ theorem ev_good : ∀ s : Sp, supported ptm s = true → ∃ o, ev ptm s = .ok o
     intro h
     have hc := default_coll c (by simpa [supported] using h)
     exact ⟨.ty c.atom, rfl,
-      ⟨by simp [gtli, generic_coll, cbt_coll, hc, someDecl, denote], rfl, fun _ => rfl, rfl, fun h => by simp [kwAllowed] at h⟩⟩
+      ⟨by simp [gtli, generic_coll, cbt_coll, hc, someDecl, denote], rfl, fun _ => rfl, rfl, fun h => by simp [kwAllowed] at h, rfl, rfl⟩⟩
   | bareTyping c =>
     intro h
     have hc := default_coll c (by simpa [supported] using h)
     exact ⟨.ty c.tAtom, rfl,
-      ⟨by simp [gtli, generic_tcoll, origin_tcoll, ofOrigin, cbt_coll, hc, denote], rfl, fun _ => rfl, rfl, fun h => by simp [kwAllowed] at h⟩⟩
+      ⟨by simp [gtli, generic_tcoll, origin_tcoll, ofOrigin, cbt_coll, hc, denote], rfl, fun _ => rfl, rfl, fun h => by simp [kwAllowed] at h, rfl, rfl⟩⟩
   | bareCls c =>
     intro h
     have hc := default_coll c (by simpa [supported] using h)
-    exact ⟨.fcls c.head, rfl, ⟨by simp [gtli, hc, someDecl, denote], rfl, fun _ => rfl, rfl, fun h => by simp [kwAllowed] at h⟩⟩
+    exact ⟨.fcls c.head, rfl, ⟨by simp [gtli, hc, someDecl, denote], rfl, fun _ => rfl, rfl, fun h => by simp [kwAllowed] at h, rfl, rfl⟩⟩
   | bareInst c =>
     intro h
     have hc := default_coll c (by simpa [supported] using h)
@@ -281,38 +394,37 @@ theorem ev_good : ∀ s : Sp, supported ptm s = true → ∃ o, ev ptm s = .ok o
     intro h
     simp only [supported] at h
     obtain ⟨ox, hev, g⟩ := ih h
-    refine ⟨.alias false c.atom [ox], by simp [ev, hev], ⟨?_, rfl, fun _ => rfl, rfl, fun h => by simp [kwAllowed] at h⟩⟩
+    refine ⟨.alias false c.atom [ox], by simp [ev, hev], ⟨?_, rfl, fun _ => rfl, rfl, fun h => by simp [kwAllowed] at h, rfl, rfl⟩⟩
     simp [gtli, cbt_coll, gtliArgs_one _ g.gt, mkFromArgs, coll_head_ne_anyOf, mkItems_coll, someDecl, denote]
   | typingG c x ih =>
     intro h
     simp only [supported] at h
     obtain ⟨ox, hev, g⟩ := ih h
-    refine ⟨.alias true c.atom [ox], by simp [ev, hev, typingArg_of_gtli g.gt], ⟨?_, rfl, fun _ => rfl, rfl, fun h => by simp [kwAllowed] at h⟩⟩
+    refine ⟨.alias true c.atom [ox], by simp [ev, hev, typingArg_of_gtli g.gt], ⟨?_, rfl, fun _ => rfl, rfl, fun h => by simp [kwAllowed] at h, rfl, rfl⟩⟩
     simp [gtli, cbt_coll, gtliArgs_one _ g.gt, mkFromArgs, coll_head_ne_anyOf, mkItems_coll, someDecl, denote]
   | sub c x ih =>
     intro h
-    simp only [supported] at h
-    obtain ⟨ox, hev, g⟩ := ih h
-    exact ⟨.finst (c.ofDecl (denote x)), by simp [ev, hev, getItem_of_gtli g.gt, mkItems_coll],
+    simp only [supported, Bool.and_eq_true] at h
+    obtain ⟨ox, hev, g⟩ := ih h.1
+    exact ⟨.finst (c.ofDecl (denote x)), by simp [ev, hev, getItem_good g h.2, mkItems_coll],
       good_finst _ _ rfl rfl⟩
   | call c x ih =>
     intro h
     simp only [supported, Bool.and_eq_true] at h
     obtain ⟨ox, hev, g⟩ := ih h.1
-    have hf : isFieldObj ox = true := by rw [g.fo]; exact h.2
     exact ⟨.finst (c.ofDecl (denote x)),
-      by simp [ev, hev, mapToField_of_gtli g.gt hf, mkFromArgs, coll_head_ne_anyOf, mkItems_coll],
+      by simp [ev, hev, callItem_good c g h.2, mkFromArgs, coll_head_ne_anyOf, mkItems_coll],
       good_finst _ _ rfl rfl⟩
   | dictBare =>
     intro _
-    exact ⟨.ty .dict, rfl, ⟨by simp [gtli, generic_dict, cbt_dict, defaultDecl, someDecl, denote], rfl, fun _ => rfl, rfl, fun h => by simp [kwAllowed] at h⟩⟩
+    exact ⟨.ty .dict, rfl, ⟨by simp [gtli, generic_dict, cbt_dict, defaultDecl, someDecl, denote], rfl, fun _ => rfl, rfl, fun h => by simp [kwAllowed] at h, rfl, rfl⟩⟩
   | tDictBare =>
     intro _
     exact ⟨.ty .tDict, rfl,
-      ⟨by simp [gtli, generic_tdict, origin_tdict, ofOrigin, cbt_dict, defaultDecl, denote], rfl, fun _ => rfl, rfl, fun h => by simp [kwAllowed] at h⟩⟩
+      ⟨by simp [gtli, generic_tdict, origin_tdict, ofOrigin, cbt_dict, defaultDecl, denote], rfl, fun _ => rfl, rfl, fun h => by simp [kwAllowed] at h, rfl, rfl⟩⟩
   | mapBare =>
     intro _
-    exact ⟨.fcls .map, rfl, ⟨by simp [gtli, defaultDecl, someDecl, denote], rfl, fun _ => rfl, rfl, fun h => by simp [kwAllowed] at h⟩⟩
+    exact ⟨.fcls .map, rfl, ⟨by simp [gtli, defaultDecl, someDecl, denote], rfl, fun _ => rfl, rfl, fun h => by simp [kwAllowed] at h, rfl, rfl⟩⟩
   | mapInst =>
     intro _
     exact ⟨.finst (.mapAny {}), by simp [ev, defaultDecl], good_finst _ _ rfl rfl⟩
@@ -321,7 +433,7 @@ theorem ev_good : ∀ s : Sp, supported ptm s = true → ∃ o, ev ptm s = .ok o
     simp only [supported, Bool.and_eq_true] at h
     obtain ⟨ok', hek, gk⟩ := ihk h.1
     obtain ⟨ov, hev, gv⟩ := ihv h.2
-    refine ⟨.alias false .dict [ok', ov], by simp [ev, hek, hev], ⟨?_, rfl, fun _ => rfl, rfl, fun h => by simp [kwAllowed] at h⟩⟩
+    refine ⟨.alias false .dict [ok', ov], by simp [ev, hek, hev], ⟨?_, rfl, fun _ => rfl, rfl, fun h => by simp [kwAllowed] at h, rfl, rfl⟩⟩
     simp [gtli, cbt_dict, gtliArgs_two _ gk.gt gv.gt, mkFromArgs, mkItems, someDecl, denote]
   | dictTyping k v ihk ihv =>
     intro h
@@ -329,25 +441,23 @@ theorem ev_good : ∀ s : Sp, supported ptm s = true → ∃ o, ev ptm s = .ok o
     obtain ⟨ok', hek, gk⟩ := ihk h.1
     obtain ⟨ov, hev, gv⟩ := ihv h.2
     refine ⟨.alias true .dict [ok', ov],
-      by simp [ev, hek, hev, typingArg_of_gtli gk.gt, typingArg_of_gtli gv.gt], ⟨?_, rfl, fun _ => rfl, rfl, fun h => by simp [kwAllowed] at h⟩⟩
+      by simp [ev, hek, hev, typingArg_of_gtli gk.gt, typingArg_of_gtli gv.gt], ⟨?_, rfl, fun _ => rfl, rfl, fun h => by simp [kwAllowed] at h, rfl, rfl⟩⟩
     simp [gtli, cbt_dict, gtliArgs_two _ gk.gt gv.gt, mkFromArgs, mkItems, someDecl, denote]
   | mapSub k v ihk ihv =>
     intro h
     simp only [supported, Bool.and_eq_true] at h
-    obtain ⟨ok', hek, gk⟩ := ihk h.1
-    obtain ⟨ov, hev, gv⟩ := ihv h.2
+    obtain ⟨ok', hek, gk⟩ := ihk h.1.1.1
+    obtain ⟨ov, hev, gv⟩ := ihv h.1.1.2
     exact ⟨.finst (.mapOf (denote k) (denote v) {}),
-      by simp [ev, hek, hev, getItem_of_gtli gk.gt, getItem_of_gtli gv.gt, mkItems],
+      by simp [ev, hek, hev, getItem_good gk h.1.2, getItem_good gv h.2, mkItems],
       good_finst _ _ rfl rfl⟩
   | mapCall k v ihk ihv =>
     intro h
     simp only [supported, Bool.and_eq_true] at h
     obtain ⟨ok', hek, gk⟩ := ihk h.1.1.1
     obtain ⟨ov, hev, gv⟩ := ihv h.1.1.2
-    have hfk : isFieldObj ok' = true := by rw [gk.fo]; exact h.1.2
-    have hfv : isFieldObj ov = true := by rw [gv.fo]; exact h.2
     exact ⟨.finst (.mapOf (denote k) (denote v) {}),
-      by simp [ev, hek, hev, mapToField_of_gtli gk.gt hfk, mapToField_of_gtli gv.gt hfv, mapEntry, mkItems],
+      by simp [ev, hek, hev, mapToField_good gk h.1.2, mapToField_good gv h.2, mapEntry, mkItems],
       good_finst _ _ rfl rfl⟩
   | optional x ih =>
     intro h
@@ -355,7 +465,7 @@ theorem ev_good : ∀ s : Sp, supported ptm s = true → ∃ o, ev ptm s = .ok o
     obtain ⟨ox, hev, g⟩ := ih h.1
     have hm := unionMembers_of_gtli g.gt (g.nu h.2)
     refine ⟨.tUnion [ox, .noneTy], by simp [ev, hev, hm, mkUnion_pair (objEq_noneTy g.nn)], ?_⟩
-    exact good_tUnion _ g.gt (by simp [gtli]) rfl rfl rfl
+    exact good_tUnion _ g.gt (by simp [gtli]) rfl rfl rfl rfl
   | union x y ihx ihy =>
     intro h
     simp only [supported, Bool.and_eq_true, Bool.not_eq_true', Bool.or_eq_true] at h
@@ -365,7 +475,7 @@ theorem ev_good : ∀ s : Sp, supported ptm s = true → ∃ o, ev ptm s = .ok o
     have hne : objEq (typingArg ox) (typingArg oy) = false := by
       simpa [distinctObjs, hevx, hevy] using hd
     refine ⟨.tUnion [typingArg ox, typingArg oy], by simp [ev, hevx, hevy, hmx, hmy, mkUnion_pair hne], ?_⟩
-    exact good_tUnion _ hgx hgy rfl rfl rfl
+    exact good_tUnion _ hgx hgy rfl rfl rfl rfl
   | anyOf x y ihx ihy =>
     intro h
     simp only [supported, Bool.and_eq_true, Bool.or_eq_true] at h
@@ -387,7 +497,7 @@ theorem ev_good : ∀ s : Sp, supported ptm s = true → ∃ o, ev ptm s = .ok o
       · have hpf' : plainType ptm oy = true ∨ isFclsObj oy = true := by simpa using hpf
         simp [ev, hevy, pipeObj, isFieldObj_noneV, typingObj_noneV, plainType_noneV, hty, hpf',
           unionMembers_noneV, hmy, mkUType_pair (objEq_noneTy_left gy.nn)]
-      · exact good_uType (ma := .noneF) _ (by simp [gtli]) gy.gt (by simp [denote]) rfl rfl hk
+      · exact good_uType (ma := .noneF) _ (by simp [gtli]) gy.gt (by simp [denote]) rfl rfl hk rfl
     · have hnx' : isNoneLit x = false := by simpa using hnx
       simp only [supported, hnx', Bool.false_eq_true, if_false, Bool.and_eq_true] at h
       obtain ⟨hx, hrest⟩ := h
@@ -399,14 +509,17 @@ theorem ev_good : ∀ s : Sp, supported ptm s = true → ∃ o, ev ptm s = .ok o
         rcases hrest with hy | hy
         · have := isNoneLit_eq hy; subst this
           exact ⟨.finst (.anyOf [denote x, .noneF]),
-            by simp [ev, hevx, pipeObj, hfo, orFields, isFieldObj_noneV, getItem_of_gtli gx.gt],
+            by simp [ev, hevx, pipeObj, hfo, orFields, isFieldObj_noneV, isSclsObj_noneV,
+              getItem_fieldObj gx.gt (by simp [hfo])],
             good_finst _ _ (by simp [denote]) (by simp [isFieldExpr, hfx])⟩
         · obtain ⟨oy, hevy, gy⟩ := ihy hy
           refine ⟨.finst (.anyOf [denote x, denote y]), ?_, good_finst _ _ rfl (by simp [isFieldExpr, hfx])⟩
           by_cases hfoy : isFieldObj oy = true
-          · simp [ev, hevx, hevy, pipeObj, hfo, orFields, hfoy, getItem_of_gtli gx.gt, getItem_of_gtli gy.gt]
+          · simp [ev, hevx, hevy, pipeObj, hfo, orFields, hfoy, getItem_fieldObj gx.gt (by simp [hfo]),
+              getItem_fieldObj gy.gt (by simp [hfoy])]
           · have hfoy' : isFieldObj oy = false := by simpa using hfoy
-            simp [ev, hevx, hevy, pipeObj, hfo, orFields_converted (getItem_of_gtli gx.gt) gy.gt hfoy']
+            simp [ev, hevx, hevy, pipeObj, hfo,
+              orFields_converted (getItem_fieldObj gx.gt (by simp [hfo])) gy.gt hfoy']
       · -- `int | str`: a `types.UnionType`, which `get_typing_lib_info` treats like `typing.Union`
         have hfx' : isFieldExpr x = false := by simpa using hfx
         simp only [hfx', Bool.false_eq_true, if_false, Bool.and_eq_true, Bool.or_eq_true, Bool.not_eq_true'] at hrest
@@ -422,7 +535,7 @@ theorem ev_good : ∀ s : Sp, supported ptm s = true → ∃ o, ev ptm s = .ok o
             by simp [ev, hevx, pipeObj, hfo, htx, hptx, typingObj_noneV, plainRight_noneV, hmx,
               unionMembers_noneV, mkUType_pair (objEq_noneTy gx.nn)], ?_⟩
           exact good_uType (mb := .noneF) _ gx.gt (by simp [gtli]) (by simp [denote]) (by simp [isFieldExpr, hfx'])
-            (by simp [unionLike, hfx']) hk
+            (by simp [unionLike, hfx']) hk (by rw [sfu_pair, gx.sc]; simp [structFirstPipe, plainSp_not_sfp hpx])
         · obtain ⟨⟨hsy, hpy⟩, huy⟩ := hy
           obtain ⟨oy, hevy, gy⟩ := ihy hsy
           have hpry := plainRightSp_plainRight hpy hevy
@@ -434,6 +547,44 @@ theorem ev_good : ∀ s : Sp, supported ptm s = true → ∃ o, ev ptm s = .ok o
           refine ⟨.uType [ox, oy],
             by simp [ev, hevx, hevy, pipeObj, hfo, htx, hptx, hty, hpry, hmx, hmy, mkUType_pair hne], ?_⟩
           exact good_uType _ gx.gt gy.gt rfl (by simp [isFieldExpr, hfx']) (by simp [unionLike, hfx']) hk
+            (by rw [sfu_pair, gx.sc]; simp [structFirstPipe, plainSp_not_sfp hpx])
+  | scls d n =>
+    intro h
+    have hd : isStructDecl d = true := by simpa [supported] using h
+    exact ⟨.scls d, rfl, ⟨by simp [gtli, denote], rfl, fun _ => rfl, rfl, fun h => by simp [kwAllowed] at h, rfl, rfl⟩⟩
+  | tup585 x y ihx ihy =>
+    intro h
+    simp only [supported, Bool.and_eq_true] at h
+    obtain ⟨ox, hex, gx⟩ := ihx h.1
+    obtain ⟨oy, hey, gy⟩ := ihy h.2
+    refine ⟨.alias false .tuple [ox, oy], by simp [ev, hex, hey], ⟨?_, rfl, fun _ => rfl, rfl, fun h => by simp [kwAllowed] at h, rfl, rfl⟩⟩
+    simp [gtli, cbt_tuple, gtliArgs_two _ gx.gt gy.gt, mkFromArgs, mkItems, someDecl, denote]
+  | tupTyping x y ihx ihy =>
+    intro h
+    simp only [supported, Bool.and_eq_true] at h
+    obtain ⟨ox, hex, gx⟩ := ihx h.1
+    obtain ⟨oy, hey, gy⟩ := ihy h.2
+    refine ⟨.alias true .tuple [ox, oy],
+      by simp [ev, hex, hey, typingArg_of_gtli gx.gt, typingArg_of_gtli gy.gt], ⟨?_, rfl, fun _ => rfl, rfl, fun h => by simp [kwAllowed] at h, rfl, rfl⟩⟩
+    simp [gtli, cbt_tuple, gtliArgs_two _ gx.gt gy.gt, mkFromArgs, mkItems, someDecl, denote]
+  | tupSub x y ihx ihy =>
+    intro h
+    simp only [supported, Bool.and_eq_true] at h
+    obtain ⟨ox, hex, gx⟩ := ihx h.1.1.1
+    obtain ⟨oy, hey, gy⟩ := ihy h.1.1.2
+    exact ⟨.finst (.tuplePos [denote x, denote y] false),
+      by simp [ev, hex, hey, getItem_good gx h.1.2, getItem_good gy h.2, mkItems],
+      good_finst _ _ rfl rfl⟩
+  | tupCall x y ihx ihy =>
+    intro h
+    simp only [supported, Bool.and_eq_true] at h
+    obtain ⟨ox, hex, gx⟩ := ihx h.1.1.1
+    obtain ⟨oy, hey, gy⟩ := ihy h.1.1.2
+    have hfx : isFieldObj ox = true := by rw [gx.fo]; exact h.1.2
+    have hfy : isFieldObj oy = true := by rw [gy.fo]; exact h.2
+    exact ⟨.finst (.tuplePos [denote x, denote y] false),
+      by simp [ev, hex, hey, tupleItem_of_gtli gx.gt hfx, tupleItem_of_gtli gy.gt hfy, mkItems],
+      good_finst _ _ rfl rfl⟩
 
 theorem sameMeaning_denote {s t : Sp} (h : SameMeaning s t) : denote s = denote t := by
   induction h with
@@ -448,6 +599,8 @@ theorem sameMeaning_denote {s t : Sp} (h : SameMeaning s t) : denote s = denote 
   | optionalAlt g _ ih => cases g <;> simp [mkAlt, denote, ih]
   | altOptional f _ ih => cases f <;> simp [mkAlt, denote, ih]
   | alt f g _ _ ihx ihy => cases f <;> cases g <;> simp [mkAlt, denote, ihx, ihy]
+  | scls d n m => rfl
+  | tup f g _ _ ihx ihy => cases f <;> cases g <;> simp [mkTup, denote, ihx, ihy]
 
 theorem kwAllowed_fieldExpr {s : Sp} (h : kwAllowed s = true) : isFieldExpr s = true := by
   cases s <;> simp [kwAllowed] at h <;> rfl
@@ -464,6 +617,30 @@ theorem tryDefault_of_ok {O : Oracles} {d : FieldDecl} {v : PyVal} (h : defaultO
   | ok y => simp
   | error e => simp [hv] at h
 
+theorem struct_noNone {ty : Sp} (hs : supported ptm ty = true) (h : isStructSp ty = true) :
+    hasNoneOpt (denote ty) = false := by
+  cases ty <;> simp [isStructSp] at h
+  case scls d n =>
+    have hd : isStructDecl d = true := by simpa [supported] using hs
+    cases d <;> first | rfl | simp [isStructDecl] at hd
+
+/-- `add_annotations_to_class_dict` on the object a supported annotation evaluates to -/
+theorem annField_eq (O : Oracles) (fs : FieldSp) {o : Obj} (hs : supported ptm fs.ty = true) (g : Good fs.ty o) :
+    annField O ptm fs o
+      = finishField O (denote fs.ty) (fs.inOptional || (!isFieldExpr fs.ty && hasNoneOpt (denote fs.ty))) fs.dflt := by
+  unfold annField
+  by_cases hf : isFieldObj o = true
+  · have hfe : isFieldExpr fs.ty = true := by rw [← g.fo]; exact hf
+    have hgi := getItem_fieldObj g.gt (by simp [hf])
+    simp [hf, hgi, hfe]
+  · have hfe : isFieldExpr fs.ty = false := by rw [← g.fo]; simpa using hf
+    by_cases hsc : isSclsObj o = true
+    · have hst : isStructSp fs.ty = true := by rw [← g.sc]; exact hsc
+      have hn : hasNoneOpt (denote fs.ty) = false := struct_noNone hs hst
+      have hgi := getItem_fieldObj g.gt (by simp [hsc])
+      simp [hsc, hgi, hn]
+    · simp [hf, hsc, g.gt, afterGtli, hfe, Bool.or_comm]
+
 /-- Inside the supported region a field declaration elaborates to its documented meaning. -/
 theorem elabField_meaning' (O : Oracles) (future : Bool) (fs : FieldSp)
     (h : fieldSupported O ptm future fs = true) : elabField O ptm future fs = fieldMeaning O fs := by
@@ -471,26 +648,19 @@ theorem elabField_meaning' (O : Oracles) (future : Bool) (fs : FieldSp)
   simp only [fieldSupported, Bool.and_eq_true] at h
   obtain ⟨⟨hs, hm⟩, hd⟩ := h
   obtain ⟨o, hev, g⟩ := ev_good ty hs
-  have hgi := getItem_of_gtli g.gt
   cases mode with
   | ann =>
     simp only [elabField]
     cases dflt with
     | none =>
-      simp only [evTop, hev, bindE_ok, annField, fieldMeaning, DefaultSp.value, effOptional]
-      by_cases hf : isFieldObj o = true
-      · have hfe : isFieldExpr ty = true := by rw [← g.fo]; exact hf
-        simp [hf, hgi, finishField, hfe]
-      · have hfe : isFieldExpr ty = false := by rw [← g.fo]; simpa using hf
-        simp [hf, g.gt, afterGtli, finishField, hfe, Bool.or_comm]
+      simp only [evTop, hev, bindE_ok, fieldMeaning, DefaultSp.value, effOptional]
+      rw [annField_eq O _ hs g]
+      simp [finishField]
     | eq v n =>
       simp only [Bool.and_eq_true] at hd
-      simp only [evTop, hev, bindE_ok, annField, fieldMeaning, DefaultSp.value, effOptional]
-      by_cases hf : isFieldObj o = true
-      · have hfe : isFieldExpr ty = true := by rw [← g.fo]; exact hf
-        simp [hf, hgi, finishField, hd.1, hfe]
-      · have hfe : isFieldExpr ty = false := by rw [← g.fo]; simpa using hf
-        simp [hf, g.gt, afterGtli, finishField, hd.1, hfe, Bool.or_comm]
+      simp only [evTop, hev, bindE_ok, fieldMeaning, DefaultSp.value, effOptional]
+      rw [annField_eq O _ hs g]
+      simp [finishField, hd.1]
     | kw v n =>
       simp only [Bool.and_eq_true, Bool.or_eq_true] at hd
       obtain ⟨⟨hsc, hkw⟩, hok⟩ := hd
@@ -507,12 +677,11 @@ theorem elabField_meaning' (O : Oracles) (future : Bool) (fs : FieldSp)
           · exact hok
         simp [ht, tryDefault_of_ok hok', annField, isFieldObj, getItem, finishField, eqResult_scalar _ _ hsc]
     | eqF p n =>
-      simp only [evTop, hev, bindE_ok, annField, fieldMeaning, DefaultSp.value, effOptional]
+      simp only [evTop, hev, bindE_ok, fieldMeaning, DefaultSp.value, effOptional]
       have htag : ∀ opt, eqResult (denote ty) opt factoryTag = .field (denote ty) false (some factoryTag) :=
         fun _ => rfl
-      by_cases hf : isFieldObj o = true
-      · simp [hf, hgi, finishField, htag]
-      · simp [hf, g.gt, afterGtli, finishField, htag]
+      rw [annField_eq O _ hs g]
+      simp [finishField, htag]
     | kwF p n =>
       have hkw : kwAllowed ty = true := hd
       have ho := g.ki hkw
@@ -525,7 +694,9 @@ theorem elabField_meaning' (O : Oracles) (future : Bool) (fs : FieldSp)
       | ok u => simp [annField, isFieldObj, getItem, finishField, htag]
   | assign =>
     simp only [elabField]
-    have hf : isFieldObj o = true := by rw [g.fo]; exact hm
+    have hf : (isFieldObj o || isSclsObj o) = true := by
+      rw [g.fo, g.sc]; exact hm
+    have hgi := getItem_fieldObj g.gt hf
     cases dflt with
     | none =>
       simp only [evTop, hev, bindE_ok, fieldMeaning, DefaultSp.value, effOptional]
@@ -537,7 +708,11 @@ theorem elabField_meaning' (O : Oracles) (future : Bool) (fs : FieldSp)
       | fcls hh =>
         have : defaultDecl hh = .ok (denote ty) := by simpa [getItem] using hgi
         simp [assignField, this, finishFieldNoCheck]
-      | _ => simp [isFieldObj] at hf
+      | scls d =>
+        have : d = denote ty := by simpa [getItem] using hgi
+        subst this
+        simp [assignField, finishFieldNoCheck]
+      | _ => simp [isFieldObj, isSclsObj] at hf
     | eq v n => simp at hd
     | kw v n =>
       simp only [Bool.and_eq_true, Bool.or_eq_true] at hd
